@@ -10,6 +10,7 @@ import ProfiVerif.Driver.Station
 import ProfiVerif.Driver.StationOracle
 import ProfiVerif.Driver.Net
 import ProfiVerif.Driver.NetOracle
+import ProfiVerif.Driver.DpOracle
 open PV PV.Driver
 
 /-
@@ -42,6 +43,11 @@ def main (args : List String) : IO UInt32 := do
   | ["model", "phyrx"] => engineLoop stepPhyRx [] inp out; return 0
   | ["model", "apps"] => engineLoop (fun (st : AppsState) l => stepApps st (splitWords l)) {} inp out; return 0
   | ["oracle", "C18", o, i] => oracleLoop oracleC18 {} o i
+  | ["model", "dp"] => engineLoop (fun (st : Option DpCase) l => stepDp st (splitWords l)) none inp out; return 0
+  | ["oracle", "C03", o, i] => oracleLoop oracleC03 ({}, {}) o i
+  | ["oracle", "C04", o, i] => oracleLoop oracleC04 ({}, {}) o i
+  | ["oracle", "C08", o, i] => oracleLoop oracleC08 ({}, {}) o i
+  | ["oracle", "C14", o, i] => oracleLoop oracleC14 ({}, {}) o i
   | ["model", "diag"] => engineLoop (fun (st : Option PV.Diag.PState) l => stepDiag st (splitWords l)) none inp out; return 0
   | ["oracle", "C17", o, i] => oracleLoop oracleC17 { cap := 0, prev := "last=-" } o i
   | ["oracle", "C02las", o, i] => oracleLoop oracleLas {} o i
